@@ -4,7 +4,7 @@ use crate::Error;
 use crate::Header;
 use crate::Jwk;
 use crate::{encode, KeyForEncoding};
-use chrono::{Duration, Utc};
+use chrono::Utc;
 use core::slice::Iter;
 use rand::seq::SliceRandom;
 use rand::Rng;
@@ -253,9 +253,8 @@ impl Issuer {
     ///     .expires_in_seconds(3600); // Expires in one hour
     /// ```
     pub fn expires_in_seconds(&mut self, seconds: i64) -> &mut Self {
-        let now = Utc::now();
-        let expiration = now + Duration::seconds(seconds);
-        let exp = expiration.timestamp();
+        // plain integer arithmetic: a lifetime that no date can hold saturates instead of panicking
+        let exp = Utc::now().timestamp().saturating_add(seconds);
         self.claims["exp"] = serde_json::json!(exp);
         self
     }
